@@ -174,6 +174,21 @@ def check(case, stats: Stats):
                     if any(t[-1] == gone for t in view2[0]):
                         raise Violation(f'source {gone!r} has no file but still contributes transactions', case, 'mm-delete-source')
             classes.add('mm_delete_source')
+        # views are independent: a view kept alone in the views file has the members it has in the full file
+        if view is not None and b['views'] not in (None, 'corrupt') and len(b['views']['views']) >= 2:
+            k = case['drop'] % len(b['views']['views'])
+            one = b['views']['views'][k]
+            b3 = dict(b, views=dict(b['views'], views=[one]))
+            with cli.Budget() as bd3:
+                mat3 = B.materialise(b3, bd3)
+                r3 = cli.run(['up', '-q', bd3.config], cwd=bd3.root)
+                if r3.code == 0 and os.path.exists(bd3.path('output/spending_summary.html')):
+                    data3 = decode_html(open(bd3.path('output/spending_summary.html'), encoding='utf-8').read(), case)
+                    alone = {sec['title']: {m['displayName'] for m in sec['merchants'].values()} for sec in data3['sections'].values()}
+                    if alone.get(one['name'], set()) != view[2].get(one['name'], set()):
+                        raise Violation(f"view {one['name']!r} has members {sorted(view[2].get(one['name'], set()))} in the full views file but {sorted(alone.get(one['name'], set()))} "
+                                        f"when it is the only view\n{open(bd.path('config/views.rules')).read()}", case, 'mm-view-alone')
+                    classes.add('mm_view_alone')
         # fresh-process sample
         if case['sub'] == 0 and comp['stats'] is not None:
             observe(b, bd, mat, case, runner=cli.run_subprocess, label='fresh subprocess')
